@@ -32,6 +32,7 @@ CFG = {
         "Swat4.C16.C16_interleaved",
         "Swat4.C16.address_hypotheses_needed",
         "Swat4.C16.stale_readd_unbacked",
+        "Swat4.C16.facts_item_id_uses",
     ],
     "shards": (1, 16),
     "nontrivial": _nontrivial,
